@@ -2,12 +2,14 @@
  * request the library makes, can fail the k-th one (C18) and refuses absurd sizes (C14) so that a
  * hostile count is observed as a result instead of taking the machine down. */
 #include "vh.h"
+#include <malloc.h>
 
 void *__real_malloc(size_t);
 void *__real_calloc(size_t, size_t);
 void *__real_realloc(void *, size_t);
 void __real_free(void *);
 
+int vh_poison = -1;     /* C15: residue byte written into fresh and released blocks */
 int vh_track;
 size_t vh_nalloc;       /* allocation requests seen while tracking */
 size_t vh_maxreq;       /* largest request */
@@ -86,14 +88,21 @@ static bool admit(size_t sz) {
     return true;
 }
 
+static void *poisoned(void *p, size_t sz) {
+    if (p && vh_poison >= 0 && sz) {
+        memset(p, vh_poison, sz);
+    }
+    return p;
+}
+
 void *__wrap_malloc(size_t sz) {
     if (!vh_track) {
-        return __real_malloc(sz);
+        return poisoned(__real_malloc(sz), sz);
     }
     if (!admit(sz)) {
         return NULL;
     }
-    void *p = __real_malloc(sz);
+    void *p = poisoned(__real_malloc(sz), sz);
     live_add(p);
     return p;
 }
@@ -129,6 +138,9 @@ void *__wrap_realloc(void *old, size_t sz) {
 void __wrap_free(void *p) {
     if (vh_track) {
         live_del(p);
+    }
+    if (p && vh_poison >= 0) {
+        memset(p, vh_poison ^ 0xFF, malloc_usable_size(p));
     }
     __real_free(p);
 }
